@@ -9,9 +9,28 @@ Contract (exceptional postcondition):
 Any other exception type escaping `compile()` violates it.  "Well-formed" = accepted by the SQLAlchemy constructors
 when the corpus descriptor is built (rtc/corpus.py); descriptors the constructors reject are counted, not judged.
 
-Scope: every statement / DDL construct of the shared statement corpus up to the tier's depth, plus the compositions
-"statement A as subquery / CTE / LATERAL / EXISTS / IN / scalar subquery / compound member / INSERT..FROM SELECT /
-upsert source / data-modifying CTE of statement B", x dialect variants x {plain, literal_binds, render_postcompile}.
+Scope
+ (1) every statement / DDL construct of the shared statement corpus up to the tier's depth, plus the compositions
+     "statement A as subquery / CTE / LATERAL / EXISTS / IN / scalar subquery / compound member / INSERT..FROM SELECT /
+     upsert source / data-modifying CTE of statement B", x dialect variants x {plain, literal_binds, render_postcompile}.
+ (2) the dialect-specific syntax extensions (every `SyntaxExtension` subclass shipped with the dialects, found mechanically
+     and checked against the catalogue): postgresql / sqlite `Insert.on_conflict_do_update / on_conflict_do_nothing`,
+     mysql `Insert.on_duplicate_key_update`, mysql `limit()` on UPDATE / DELETE, postgresql `distinct_on()`, with every
+     argument kind their documentation and type hints allow (`ext_catalogue()`), on *every variant of their own dialect
+     family* (drivers, paramstyles, server versions: OWN_DIALECTS) x the three compile_kwargs.  Dimensions of an upsert:
+       target table {a, schema-qualified sch.c, ORM entity A}  x  INSERT body {values, multi-values, FROM SELECT, SQL
+       expression values, none}  x  conflict target {index_elements of Column / name / column("id") / two columns /
+       function / COLLATE expression, constraint by name, PrimaryKeyConstraint object, Index object, none}  x  index_where
+       {comparison, AND, text(), IS NOT NULL, IN, string literal with quote}  x  SET form {dict, ColumnCollection
+       (excluded / inserted / table.c), kwargs, list of 2-tuples}  x  SET key {column name, unknown name, name needing
+       quotes, Table Column, column("x"), column(unknown), typed column(), literal_column, aliased-table column, other
+       table's column, ORM attribute, excluded column, labeled column, function}  x  SET value {int, str, None, excluded /
+       inserted column, arithmetic with it, bindparam, scalar subquery, function, CASE, CAST, NULL, text(), typed literal,
+       literal_column}  x  DO UPDATE WHERE {comparison, against excluded, text(), IN list, EXISTS, bindparam, IS NULL,
+       3-way AND}  x  RETURNING {none, column, whole table, labeled expression, two columns}  x  position {top level,
+       CTE selected from, add_cte of a SELECT, CTE inside the IN-subquery of an UPDATE, source of INSERT..FROM SELECT}.
+     Combination: base choice (every value of every dimension with the other dimensions canonical) + all pairs
+     SET key x SET value, SET key x position, SET key x SET form, conflict target x index_where, WHERE x position.
 """
 import json
 import warnings
@@ -24,6 +43,200 @@ QUICK_DIALECTS = ("default", "sqlite", "postgresql", "mysql", "mariadb", "mssql"
 THOROUGH_DIALECTS = QUICK_DIALECTS + ("postgresql+psycopg", "postgresql+pg8000", "mysql+old", "mariadb+new", "mssql+2008", "mssql+legacy_schema", "oracle+11",
                                       "oracle+noansi", "oracle+oracledb", "default+format", "default+numeric_dollar", "default+label12", "postgresql+label10")
 KWS = ({}, {"literal_binds": True}, {"render_postcompile": True})
+
+# ------------------------------------------------------------------------------------------------ scope (2): syntax extensions
+# variants of the construct's own dialect family: (catalogue name, factory) — registered in rtc.corpus.DIALECTS so that
+# replay files can name them.  '<family>+<paramstyle>' names are resolved by corpus.get_dialect itself.
+for _n, _f in {
+    "postgresql+psycopg2": C._mk("postgresql.psycopg2"),
+    "postgresql+pg9": C._mk("postgresql", attrs={"server_version_info": (9, 6)}), "postgresql+pg17": C._mk("postgresql", attrs={"server_version_info": (17, 0)}),
+    "postgresql+implicit_returning_off": C._mk("postgresql", attrs={"insert_returning": False, "update_returning": False, "delete_returning": False}),
+    "sqlite+pysqlite": C._mk("sqlite.pysqlite"), "sqlite+aiosqlite": C._mk("sqlite.aiosqlite"), "sqlite+pysqlcipher": C._mk("sqlite.pysqlcipher"),
+    "sqlite+new": C._mk("sqlite", attrs={"server_version_info": (3, 45, 0)}),
+    "mysql+8019": C._mk("mysql", attrs={"server_version_info": (8, 0, 20)}), "mysql+57": C._mk("mysql", attrs={"server_version_info": (5, 7, 30)}),
+    "mysql+pymysql": C._mk("mysql.pymysql"), "mysql+mysqldb": C._mk("mysql.mysqldb"), "mysql+aiomysql": C._mk("mysql.aiomysql"), "mysql+asyncmy": C._mk("mysql.asyncmy"),
+    "mysql+mysqlconnector": C._mk("mysql.mysqlconnector"), "mysql+mariadbconnector": C._mk("mysql.mariadbconnector"), "mysql+cymysql": C._mk("mysql.cymysql"),
+    "mysql+pyodbc": C._mk("mysql.pyodbc"), "mariadb+old": C._mk("mysql", attrs={"server_version_info": (10, 1, 0)}, is_mariadb=True),
+}.items():
+    C.DIALECTS.setdefault(_n, _f)
+OWN_DIALECTS = {
+    "quick": {
+        "pg": ("postgresql", "postgresql+asyncpg", "postgresql+psycopg", "postgresql+psycopg2", "postgresql+pg8000", "postgresql+named", "postgresql+qmark", "postgresql+label10"),
+        "sqlite": ("sqlite", "sqlite+numeric", "sqlite+qmark_old", "sqlite+aiosqlite", "sqlite+named", "sqlite+pyformat", "sqlite+numeric_dollar"),
+        "mysql": ("mysql", "mariadb", "mysql+old", "mariadb+new", "mysql+8019", "mysql+pymysql", "mysql+asyncmy", "mysql+mariadbconnector", "mysql+named", "mysql+qmark"),
+    },
+    "thorough": {
+        "pg": ("postgresql", "postgresql+asyncpg", "postgresql+psycopg", "postgresql+psycopg2", "postgresql+pg8000", "postgresql+named", "postgresql+qmark",
+               "postgresql+format", "postgresql+numeric", "postgresql+numeric_dollar", "postgresql+label10", "postgresql+pg9", "postgresql+pg17", "postgresql+implicit_returning_off"),
+        "sqlite": ("sqlite", "sqlite+numeric", "sqlite+qmark_old", "sqlite+new", "sqlite+pysqlite", "sqlite+aiosqlite", "sqlite+pysqlcipher", "sqlite+named", "sqlite+format", "sqlite+pyformat",
+                   "sqlite+numeric_dollar"),
+        "mysql": ("mysql", "mariadb", "mysql+old", "mysql+57", "mysql+8019", "mariadb+new", "mariadb+old", "mysql+pymysql", "mysql+mysqldb", "mysql+aiomysql", "mysql+asyncmy",
+                  "mysql+mysqlconnector", "mysql+mariadbconnector", "mysql+cymysql", "mysql+pyodbc", "mysql+named", "mysql+qmark", "mysql+numeric", "mysql+pyformat"),
+    },
+}
+EXT_CLASSES_COVERED = {"postgresql.dml.OnConflictDoNothing", "postgresql.dml.OnConflictDoUpdate", "sqlite.dml.OnConflictDoNothing", "sqlite.dml.OnConflictDoUpdate",
+                       "mysql.dml.OnDuplicateClause", "mysql.dml.DMLLimitClause", "postgresql.ext.DistinctOnClause"}
+
+
+def discover_extensions():
+    """names of the concrete SyntaxExtension subclasses defined under sqlalchemy.dialects (mechanical: the catalogue
+    below must name every one of them, otherwise the run reports the gap under coverage.ext_classes_not_in_catalogue)"""
+    import importlib
+    import pkgutil
+    import sqlalchemy.dialects as D
+    from sqlalchemy.sql.base import SyntaxExtension
+    for fam in ("postgresql", "sqlite", "mysql", "mssql", "oracle"):
+        pkg = importlib.import_module("sqlalchemy.dialects." + fam)
+        for m in pkgutil.iter_modules(pkg.__path__):
+            if m.name in ("dml", "ext", "base", "named_types", "types"):
+                importlib.import_module("sqlalchemy.dialects.%s.%s" % (fam, m.name))
+
+    def subs(c):
+        for x in c.__subclasses__():
+            yield x
+            yield from subs(x)
+    out = set()
+    for c in subs(SyntaxExtension):
+        if c.__module__.startswith("sqlalchemy.dialects.") and getattr(c, "__visit_name__", None) and not c.__subclasses__():
+            out.add(c.__module__[len("sqlalchemy.dialects."):] + "." + c.__name__)
+    return sorted(out)
+
+
+def _pairs(*dims):
+    return [tuple(x) for x in __import__("itertools").product(*dims)]
+
+
+def upsert_catalogue():
+    """[(family, descriptor)] — see the module docstring for the dimensions"""
+    out = []
+    SEL0 = C.SEL0
+
+    def wrap(ins, how, fam):
+        if how is None:
+            return ins
+        if how in ("cte_select", "cte_in_update", "ins_from_cte") and not ins.get("returning"):
+            ins = dict(ins, returning=[["c", ins["t"] if not ins["t"].startswith("ent:") else "a", "id"]])
+        if how == "cte_select":
+            return {"k": "select", "cols": [["tbl", "ups"]], "from": [["cte", ins, "ups"]]}
+        if how == "add_cte":
+            return {"k": "select", "cols": [C.BID], "add_cte": [["cte", ins, "ups"]]}
+        if how == "cte_in_update":
+            return {"k": "update", "t": "b", "values": {"x": 1}, "where": [["exists", {"k": "select", "cols": [["tbl", "ups"]], "from": [["cte", ins, "ups"]]}]]}
+        if how == "ins_from_cte":
+            return {"k": "insert", "t": "b", "from_select": [["id"], {"k": "select", "cols": [["litc", "1"]], "from": [["cte", ins, "ups"]]}]}
+        raise KeyError(how)
+    POS = [None, "cte_select", "add_cte", "cte_in_update", "ins_from_cte"]
+
+    for fam in ("pg", "sqlite", "mysql"):
+        ns = "inserted" if fam == "mysql" else "excluded"
+        for t in ("a", "c", "ent:A"):
+            tn = "a" if t == "ent:A" else t                     # table name for column references
+            cid, cx = ["c", tn, "id"], ["c", tn, "x"]
+            cs = ["c", "a", "s"] if tn == "a" else ["c", "c", "b_id"]
+            nx = [ns, "x"]
+            BODIES = [dict(values={"id": 1, "x": 2}), dict(mvalues=[{"id": 1, "x": 2}, {"id": 2, "x": 3}]), dict(from_select=[["id", "x"], {"k": "select", "cols": [C.BID, C.BAID]}]),
+                      dict(values={"id": ["bp", "v", 1], "x": ["fn", "abs", [["lit", -2]]]}), dict()]
+            KEYS = ["x", "zz", "X y", cx, ["col", "x"], ["col", "zz"], ["col", "x", ["Integer"]], ["litc", "x"], ["c", tn + ":al", "x"], ["c", "b", "x"], [ns, "x"], ["label", cx, "lx"],
+                    ["fn", "lower", [cx]]] + ([["attr", "A", "x"]] if tn == "a" else [])
+            VALS = [3, "q", None, nx, ["op", "+", cx, nx], ["bp", "up", 5], ["ssq", SEL0], ["fn", "coalesce", [nx, cx]], ["case", [[["op", ">", nx, 0], nx]], cx], ["cast", nx, ["String", 5]],
+                    ["null"], ["text", "x + 1"], ["lit", 5, ["Numeric", 10, 2]], ["litc", "DEFAULT"], ["in", cx, [1, 2]]]
+            WHERES = [None, ["op", ">", cx, 1], ["op", "<", cx, nx], ["text", "x > 1"], ["in", cx, [1, 2, 3]], ["exists", C.SELC], ["op", "==", cx, ["bp", "w", 3]], ["un", "is_null", nx],
+                      ["and", [["op", ">", cx, 1], ["op", "<", cx, 9], ["op", "!=", cx, nx]]]]
+            RETS = [None, [cid], [["tbl", tn]], [["label", ["op", "+", cx, 1], "x1"]], [cid, cx]]
+            if fam == "mysql":
+                FORMS = ["kwargs", "dict", "pairs", "coll"]
+
+                def mk(body=BODIES[0], form="dict", key="x", val=nx, key2=None, ret=None, pos=None):
+                    items = [[key, val]] + ([[key2, 7]] if key2 is not None else [])
+                    if form == "kwargs":
+                        if not all(isinstance(k_, str) and k_.isidentifier() for k_, _ in items):
+                            return None
+                        od = {k_: v for k_, v in items}
+                    elif form == "coll":
+                        od = ["coll", "inserted"]
+                    else:
+                        od = [form, items]
+                    d = dict({"k": "insert", "t": t, "fam": fam}, **body)
+                    d["on_dup"] = od
+                    if ret:
+                        d["returning"] = ret
+                    return wrap(d, pos, fam)
+                combos = [mk()]
+                combos += [mk(body=b) for b in BODIES] + [mk(form=f) for f in FORMS] + [mk(key=k_) for k_ in KEYS] + [mk(val=v) for v in VALS] + [mk(ret=r) for r in RETS]
+                combos += [mk(pos=p_) for p_ in POS] + [mk(key2=k_) for k_ in KEYS[:6]] + [mk(form="pairs", key="s" if tn == "a" else "b_id", key2="x")]
+                if t == "a":
+                    combos += [mk(key=k_, val=v) for k_, v in _pairs(KEYS, VALS)] + [mk(key=k_, pos=p_) for k_, p_ in _pairs(KEYS, POS)]
+                    combos += [mk(key=k_, form=f) for k_, f in _pairs(KEYS, FORMS)] + [mk(val=v, form=f) for v, f in _pairs(VALS, FORMS)] + [mk(body=b, val=v) for b, v in _pairs(BODIES, VALS)]
+                out += [(fam, c_) for c_ in combos if c_ is not None]
+                continue
+            TARGETS = [dict(index_elements=[cid]), dict(index_elements=[["name", "id"]]), dict(index_elements=[["col", "id"]]), dict(index_elements=[cid, cx]),
+                       dict(index_elements=[["fn", "lower", [cs]]]), dict(index_elements=[["collate", cs, "C"]]), dict(constraint="the_pkey"), dict(constraint=["pk"]), dict()]
+            if tn == "a":
+                TARGETS.append(dict(constraint=["index", 0]))
+            if fam == "sqlite":
+                TARGETS = [x for x in TARGETS if "constraint" not in x]
+            IWHERES = [None, ["op", ">", cx, 0], ["op", "and", ["op", ">", cx, 0], ["op", "<", cx, 9]], ["text", "x > 0"], ["un", "is_not_null", cx], ["in", cx, [1, 2]],
+                       ["op", "==", cs, "it's"]]
+            FORMS = ["dict", "coll", "coll_table"]
+
+            def mk(body=BODIES[0], tgt=TARGETS[0], iw=None, do="update", form="dict", key="x", val=nx, key2=None, where=None, ret=None, pos=None):
+                oc = dict(tgt, do=do)
+                if iw is not None:
+                    if not tgt.get("index_elements"):
+                        return None
+                    oc["index_where"] = iw
+                if do == "update":
+                    if not tgt:
+                        return None
+                    oc["set"] = ["coll", "excluded"] if form == "coll" else ["coll", "table"] if form == "coll_table" else \
+                        ["dict", [[key, val]] + ([[key2, 7]] if key2 is not None else [])]
+                    if where is not None:
+                        oc["where"] = where
+                d = dict({"k": "insert", "t": t, "fam": fam}, **body)
+                d["on_conflict"] = oc
+                if ret:
+                    d["returning"] = ret
+                return wrap(d, pos, fam)
+            combos = [mk()]
+            combos += [mk(body=b) for b in BODIES] + [mk(tgt=x) for x in TARGETS] + [mk(tgt=x, do="nothing") for x in TARGETS] + [mk(iw=x) for x in IWHERES]
+            combos += [mk(iw=x, do="nothing") for x in IWHERES] + [mk(form=f) for f in FORMS] + [mk(key=k_) for k_ in KEYS] + [mk(val=v) for v in VALS] + [mk(key2=k_) for k_ in KEYS[:6]]
+            combos += [mk(where=x) for x in WHERES] + [mk(ret=r) for r in RETS] + [mk(pos=p_) for p_ in POS] + [mk(do="nothing", pos=p_) for p_ in POS]
+            if t == "a":
+                combos += [mk(key=k_, val=v) for k_, v in _pairs(KEYS, VALS)] + [mk(key=k_, pos=p_) for k_, p_ in _pairs(KEYS, POS)] + [mk(tgt=x, iw=y) for x, y in _pairs(TARGETS, IWHERES)]
+                combos += [mk(where=x, pos=p_) for x, p_ in _pairs(WHERES, POS)] + [mk(key=k_, where=x) for k_, x in _pairs(KEYS, WHERES[:4])] + [mk(body=b, val=v) for b, v in _pairs(BODIES, VALS)]
+                combos += [mk(tgt=x, pos=p_) for x, p_ in _pairs(TARGETS, POS)] + [mk(ret=r, pos=p_) for r, p_ in _pairs(RETS, POS)] + [mk(key=k_, body=b) for k_, b in _pairs(KEYS, BODIES)]
+            out += [(fam, c_) for c_ in combos if c_ is not None]
+    return out
+
+
+def ext_catalogue():
+    """[(family, descriptor)] for all dialect syntax extensions: the upserts + mysql limit() + postgresql distinct_on()"""
+    out = upsert_catalogue()
+    AX, AID, AS_ = C.AX, C.AID, C.AS_
+    lims = [2, 0, ["bp", "lim", 3], ["lit", 4], ["op", "+", ["lit", 1], 2], ["litx", 5], ["ssq", {"k": "select", "cols": [["fn", "count", [C.BID]]]}], ["cast", ["bp", "l", "3"], ["Integer"]]]
+    for lim in lims:
+        for base in ({"k": "update", "t": "a", "values": {"x": 1}}, {"k": "update", "t": "a", "values": {"x": 1}, "where": [["op", ">", AX, 1]]}, {"k": "delete", "t": "a"},
+                     {"k": "delete", "t": "a", "where": [["in", AID, [1, 2]]]}, {"k": "update", "t": "c", "values": {"x": 1}}, {"k": "update", "t": "ent:A", "values": {"x": 1}},
+                     {"k": "update", "t": "a", "where": [["op", "==", AID, C.BAID]], "values": {"x": C.BID}}, {"k": "delete", "t": "a", "where": [["op", "==", AID, C.BAID]]},
+                     {"k": "update", "t": "a", "values": {"x": 1}, "with_dialect_options": {"mysql_limit": 9}}, {"k": "update", "t": "a", "values": {"x": 1}, "returning": [AID]}):
+            out.append(("mysql", dict(base, ext=[["mysql_limit", lim]])))
+    dons = [[AX], [AX, AS_], [["op", "+", AX, 1]], [["label", AX, "lx"]], [["fn", "lower", [AS_]]], [["name", "x"]], [["col", "adhoc"]], [["bp", "d", 1]], [["attr", "A", "x"]],
+            [["cast", AX, ["String", 5]]], [["ssq", C.SELC]], [["text", "x"]], [["litc", "a.x"]], []]
+    for don in dons:
+        for base in ({"k": "select", "cols": [AID, AX]}, {"k": "select", "cols": [AID, AX], "order_by": [AX, AID], "limit": 3}, {"k": "select", "cols": [["ent", "A"]]},
+                     {"k": "select", "cols": [AID, C.BX], "joins": [["b", None]], "label_style": "tcol"}, {"k": "select", "cols": [AID], "distinct": True},
+                     {"k": "select", "cols": [AID], "group_by": [AID], "having": [["op", ">", ["fn", "count", [AX]], 1]], "for_update": {}}):
+            d = dict(base, ext=[["pg_distinct_on", don]])
+            out.append(("pg", d))
+            out.append(("pg", {"k": "select", "cols": [["tbl", "sq"]], "from": [["subq", d, "sq"]]}))
+            out.append(("pg", {"k": "union", "selects": [d, {"k": "select", "cols": [C.BID, C.BX] if len(base["cols"]) == 2 else [C.BID]}]}))
+    seen, res = set(), []
+    for fam, d in out:
+        j = fam + C.dj(d)
+        if j not in seen:
+            seen.add(j)
+            res.append((fam, d))
+    return res
 
 
 def statements(tier, seed):
@@ -62,10 +275,12 @@ def compile_one(stmt, dialect, kw):
 def _worker(shard, nshards, tier, seed):
     import hashlib
     descs, comps = statements(tier, seed)
-    alld = [("corpus", d) for d in descs] + [("composition", d) for d in comps]
-    dnames = QUICK_DIALECTS if tier == "quick" else THOROUGH_DIALECTS
-    out = dict(evals=0, built=0, rejected=0, reject_classes={}, sql=set(), outcomes={}, failures=[], samples=[], n_corpus=len(descs), n_comp=len(comps))
-    for i, (origin, d) in enumerate(alld):
+    exts = ext_catalogue()
+    alld = [("corpus", None, d) for d in descs] + [("composition", None, d) for d in comps] + [("ext", fam, d) for fam, d in exts]
+    dnames_all = QUICK_DIALECTS if tier == "quick" else THOROUGH_DIALECTS
+    out = dict(evals=0, built=0, rejected=0, reject_classes={}, sql=set(), outcomes={}, failures=[], samples=[], n_corpus=len(descs), n_comp=len(comps), n_ext=len(exts),
+               ext_built=0, ext_evals=0, ext_sql=set(), ext_rejected=[])
+    for i, (origin, fam, d) in enumerate(alld):
         if i % nshards != shard:
             continue
         stmt, e = C.try_build(d)
@@ -73,13 +288,22 @@ def _worker(shard, nshards, tier, seed):
             out["rejected"] += 1
             k = type(e).__name__
             out["reject_classes"][k] = out["reject_classes"].get(k, 0) + 1
+            if origin == "ext" and len(out["ext_rejected"]) < 3:
+                out["ext_rejected"].append("%s: %s" % (k, str(e)[:100]))
             continue
         out["built"] += 1
+        dnames = dnames_all if origin != "ext" else OWN_DIALECTS[tier][fam]
+        if origin == "ext":
+            out["ext_built"] += 1
         for dn in dnames:
             dialect = C.get_dialect(dn)
             for kw in KWS:
                 out["evals"] += 1
                 oc, detail, exc_ = compile_one(stmt, dialect, kw)
+                if origin == "ext":
+                    out["ext_evals"] += 1
+                    if oc == "ok":
+                        out["ext_sql"].add(hashlib.md5((dn.split("+")[0] + detail).encode()).digest()[:8])
                 if oc == "ok":
                     out["sql"].add(hashlib.md5((dn.split("+")[0] + detail).encode()).digest()[:8])
                     if len(out["samples"]) < 2 and i % 97 == shard:
@@ -92,12 +316,16 @@ def _worker(shard, nshards, tier, seed):
                                                 expected="normal return or CompileError/UnsupportedCompilationError/InvalidRequestError/ArgumentError",
                                                 actual="%s: %s" % (detail, str(exc_)[:300]) if exc_ is not None else "empty string"))
     out["sql"] = list(out["sql"])
+    out["ext_sql"] = list(out["ext_sql"])
     return out
 
 
 def run(run, tier, seed, args):
     res = C.shard_run(_worker, 48, (tier, seed))
-    sql = set()
+    sql, ext_sql = set(), set()
+    for r in res:
+        ext_sql.update(r["ext_sql"])
+    found_ext = discover_extensions()
     failures, outcomes, rej = [], {}, {}
     evals = built = rejected = 0
     samples = []
@@ -123,9 +351,15 @@ def run(run, tier, seed, args):
              "(exception type, raising function) class; counted with a set of hashes",
         samples=samples[:4],
         exhaustive=True,
-        scope="statement corpus depth %d (%d descriptors; base-choice grammar of rtc/corpus.py) + %d compositions (A as subquery/CTE/lateral/EXISTS/IN/"
+        scope="(1) statement corpus depth %d (%d descriptors; base-choice grammar of rtc/corpus.py) + %d compositions (A as subquery/CTE/lateral/EXISTS/IN/"
               "scalar subquery/compound member/INSERT..FROM SELECT/upsert source/data-modifying CTE of B) x %d dialect variants %s x 3 compile_kwargs "
-              "{plain, literal_binds, render_postcompile}" % (2 if tier == "quick" else 3, res[0]["n_corpus"], res[0]["n_comp"], len(dnames), list(dnames)),
+              "{plain, literal_binds, render_postcompile}; (2) %d dialect syntax-extension statements (pg/sqlite ON CONFLICT, mysql ON DUPLICATE KEY UPDATE, mysql "
+              "limit(), pg distinct_on(): base choice over table x body x conflict target x index_where x SET form x SET key kind x SET value kind x WHERE x "
+              "RETURNING x position, + the pairs listed in the module docstring) x every variant of their own dialect family %s x the 3 compile_kwargs"
+              % (2 if tier == "quick" else 3, res[0]["n_corpus"], res[0]["n_comp"], len(dnames), list(dnames), res[0]["n_ext"], {k: list(v) for k, v in OWN_DIALECTS[tier].items()}),
+        ext_statements_built=sum(r["ext_built"] for r in res), ext_evaluations=sum(r["ext_evals"] for r in res), ext_distinct_sql=len(ext_sql),
+        ext_rejected_examples=[x for r in res for x in r["ext_rejected"]][:5],
+        ext_classes_found_mechanically=found_ext, ext_classes_not_in_catalogue=sorted(set(found_ext) - EXT_CLASSES_COVERED),
         statements_built=built, rejected_by_constructors=rejected, rejected_classes=rej, documented_errors=outcomes,
         distinct_sql=len(sql), internal_error_cases=len(failures))
     run.assumptions += [
